@@ -119,7 +119,7 @@ def spec_geometry(h):
                 lines_of_context_post=min(posts or [0]))
 
 
-SEPS = [b'', b'diff --git a/x b/x', b'--- a/x', b'+++ b/x', b'index 123..456', b'@@ not a header', b'@@ -1 +1', b'garbage',
+SEPS = [b'-- ', b'-- \r', b'--', b'-- x', b'---', b'++ ', b'== ', b'-- \n', b'', b'diff --git a/x b/x', b'--- a/x', b'+++ b/x', b'index 123..456', b'@@ not a header', b'@@ -1 +1', b'garbage',
         b'\\ No newline at end of file', b' context-like', b'-minus', b'+plus', b'@@ -a,1 +1 @@', b'@@ -1,1 +1,1 @@x']
 
 SMALL = [b'@@ -1 +1 @@', b'@@ -1,2 +1,0 @@', b'@@ -0,0 +1 @@ ctx', b'-a', b'+b', b' c', b'\\ No newline at end of file',
